@@ -850,6 +850,12 @@ func Run(c *ev.Ctx) int {
 		}
 	}
 	run(func() { laneDirectCache(c, c.Rng("direct").Int63()) })
+	for _, point := range []string{"iam.afterRemove", "iam.afterBackup", "iam.beforeRename"} {
+		for _, op := range []string{"create", "update", "delete"} {
+			point, op := point, op
+			run(func() { laneKilled(c, "K/"+point+"/"+op, point, op) })
+		}
+	}
 	nConc := c.Pick(10, 400)
 	rc := c.Rng("conc")
 	for i := 0; i < nConc; i++ {
